@@ -91,6 +91,35 @@ type smtpStack struct {
 	host  *extension.Host
 	store storage.Store
 	srv   *smtp.Server
+
+	curLine int32 // index of the dialogue line the lock-step player has sent last (hooks run while that line is being handled)
+	hookMu  sync.Mutex
+	hookLog []hookCall // what the before-hooks were SHOWN, in call order
+}
+
+// hookCall: one invocation of a MAIL / RCPT before-hook with the session it was shown
+type hookCall struct {
+	kind string // "mail" | "rcpt"
+	line int    // index of the dialogue line in flight
+	from string
+	to   []string
+}
+
+func (st *smtpStack) noteHook(kind string, s event.SMTPSession) {
+	c := hookCall{kind: kind, line: int(atomic.LoadInt32(&st.curLine)), from: "<nil>"}
+	if s.From != nil {
+		c.from = s.From.Address
+	}
+	for _, a := range s.To {
+		if a == nil {
+			c.to = append(c.to, "<nil>")
+		} else {
+			c.to = append(c.to, a.Address)
+		}
+	}
+	st.hookMu.Lock()
+	st.hookLog = append(st.hookLog, c)
+	st.hookMu.Unlock()
 }
 
 var namingByName = map[string]int{"local": 1, "full": 2, "domain": 3}
@@ -128,8 +157,10 @@ func (e *smtpEnv) build() (*smtpStack, error) {
 		})
 	}
 	host := extension.NewHost()
+	stk := &smtpStack{env: e}
 	if len(e.hookMail) > 0 {
 		host.Events.BeforeMailFromAccepted.AddListener("verif", func(s event.SMTPSession) *event.SMTPResponse {
+			stk.noteHook("mail", s)
 			if s.From == nil {
 				return nil
 			}
@@ -138,6 +169,7 @@ func (e *smtpEnv) build() (*smtpStack, error) {
 	}
 	if len(e.hookRcpt) > 0 {
 		host.Events.BeforeRcptToAccepted.AddListener("verif", func(s event.SMTPSession) *event.SMTPResponse {
+			stk.noteHook("rcpt", s)
 			if len(s.To) == 0 {
 				return nil
 			}
@@ -172,7 +204,8 @@ func (e *smtpEnv) build() (*smtpStack, error) {
 	}
 	mgr := &message.StoreManager{AddrPolicy: ap, Store: mst, ExtHost: host}
 	srv := smtp.NewServer(root.SMTP, mgr, ap, host)
-	return &smtpStack{env: e, root: root, ap: ap, host: host, store: st, srv: srv}, nil
+	stk.root, stk.ap, stk.host, stk.store, stk.srv = root, ap, host, st, srv
+	return stk, nil
 }
 
 func toResp(t map[string]hookAns, key string) *event.SMTPResponse {
@@ -315,6 +348,7 @@ func (st *smtpStack) play(lines [][]byte, cut int, awaitLast bool) dialogueResul
 		if res.noReply >= 0 {
 			break
 		}
+		atomic.StoreInt32(&st.curLine, int32(i))
 		chunk := l
 		last := false
 		if cut >= 0 && sent+len(l) >= cut {
